@@ -707,6 +707,16 @@ Setting::~Setting()
 
 // ---------------------------------------------------------------------------
 
+Setting::Format Setting::getFormat() const
+{
+  // ask the C layer: the effective format also depends on the configuration's
+  // default format, which may have changed since this wrapper was created
+  return((config_setting_get_format(_setting) == CONFIG_FORMAT_HEX)
+         ? FormatHex : FormatDefault);
+}
+
+// ---------------------------------------------------------------------------
+
 void Setting::setFormat(Format format)
 {
   if((_type == TypeInt) || (_type == TypeInt64))
